@@ -123,10 +123,8 @@ Proof.
   - destruct Hinv as [Hc Hlt]. rewrite u32_small by lia.
     destruct (N.eqb_spec (hcc s + 1) h); cbn [fst snd hflag]; repeat split; try congruence; try lia;
       intros; try discriminate; try lia.
-  - cbn [fst snd hflag]. repeat split; try congruence; try lia; intros; try discriminate.
-    exfalso; auto.
-  - cbn [fst snd hflag]. repeat split; try congruence; try lia; intros; try discriminate.
-    exfalso; auto.
+  - cbn [fst snd hflag]. repeat split; try congruence; try lia; intros; try discriminate; try (exfalso; auto; fail).
+  - cbn [fst snd hflag]. repeat split; try congruence; try lia; intros; try discriminate; try (exfalso; auto; fail).
   - destruct Hinv as [Hc Hlt]. rewrite u32_small by lia.
     destruct (N.eqb_spec (unc s + 1) u); cbn [fst snd hflag]; repeat split; try congruence; try lia;
       intros; try discriminate; try lia.
